@@ -181,3 +181,96 @@ Proof.
     destruct (omapM get_calendar_by_name (split 44 p1)) eqn:E1; cbn [obind] in H; try discriminate.
     injection H as <-. cbn. split; auto. right. exists p0, p1, a, a0. auto.
 Qed.
+
+(* ---------- the explicit combination of the named parts ---------- *)
+(* cs / ss are the tables the comma-separated parts before / after the single '|' are wired to *)
+Definition named_parts (s : str) (cs : list cal) (ss : option (list cal)) : Prop :=
+  (exists p0, split 124 (lower s) = [p0] /\ Forall2 table_of (split 44 p0) cs /\ ss = None) \/
+  (exists p0 p1 v, split 124 (lower s) = [p0; p1] /\ Forall2 table_of (split 44 p0) cs /\
+                   Forall2 table_of (split 44 p1) v /\ ss = Some v).
+
+Lemma table_of_lookup name c : table_of name c -> get_calendar_by_name name = Ok c.
+Proof.
+  intros [h [m [Hh [Hm ->]]]]. unfold get_calendar_by_name, get_holidays_by_name, get_weekmask_by_name.
+  rewrite Hh, Hm. cbn [obind]. apply assoc_last_in in Hm. destruct Hm as [Hm|[k Hm]]; [discriminate|].
+  pose proof wiring_masks_ok as W. rewrite forallb_forall in W. specialize (W _ Hm). cbn [snd] in W.
+  unfold cal_new. unfold mask_ok in W. rewrite W. reflexivity.
+Qed.
+Lemma tables_lookup l cs : Forall2 table_of l cs -> omapM get_calendar_by_name l = Ok cs.
+Proof.
+  induction 1 as [|x c l cs H _ IH]; cbn [omapM]; [reflexivity|].
+  rewrite (table_of_lookup _ _ H). cbn [obind]. rewrite IH. reflexivity.
+Qed.
+
+(* both directions: a string yields a named calendar exactly when its parts are wired, and that
+   calendar is then literally the UnionCal of the parts' tables *)
+Theorem named_iff_parts s u : (exists n, named_try_new s = Ok n /\ n_ucal n = u) <->
+  exists cs ss, named_parts s cs ss /\ u = mkUCal cs ss.
+Proof.
+  split.
+  - intros [n [H <-]]. apply named_is_union in H. destruct H as [_ [[p0 [cs [H1 [H2 H3]]]]|[p0 [p1 [cs [ss [H1 [H2 [H3 H4]]]]]]]]].
+    + exists cs, None. split; auto. left. exists p0. auto.
+    + exists cs, (Some ss). split; auto. right. exists p0, p1, ss. auto.
+  - intros [cs [ss [[[p0 [H1 [H2 ->]]]|[p0 [p1 [v [H1 [H2 [H3 ->]]]]]]] ->]]]; unfold named_try_new; rewrite H1; unfold parse_cals.
+    + rewrite (tables_lookup _ _ H2). cbn [obind]. eexists. split; [reflexivity|]. reflexivity.
+    + rewrite (tables_lookup _ _ H2). cbn [obind]. rewrite (tables_lookup _ _ H3). cbn [obind].
+      eexists. split; [reflexivity|]. reflexivity.
+Qed.
+
+Lemma dr_eq_refl b s : dr_eq b s b s = true.
+Proof. apply dr_eq_spec. auto. Qed.
+
+(* date for date (for EVERY date, not only the supported range), and `==` *)
+Theorem named_date_for_date s n : named_try_new s = Ok n ->
+  exists cs ss, named_parts s cs ss /\
+    (forall d, ncal_is_bus n d = forallb (fun c => cal_is_bus c d) cs /\
+               ncal_is_settle n d = match ss with None => true | Some v => forallb (fun c => cal_is_bus c d) v end /\
+               ncal_is_bus n d = ucal_is_bus (mkUCal cs ss) d /\ ncal_is_settle n d = ucal_is_settle (mkUCal cs ss) d /\
+               ncal_is_weekday n d = ucal_is_weekday (mkUCal cs ss) d /\ ncal_is_holiday n d = ucal_is_holiday (mkUCal cs ss) d) /\
+    ncal_eq_any n (ucal_is_bus (mkUCal cs ss)) (ucal_is_settle (mkUCal cs ss)) = true /\
+    ucal_eq_any (mkUCal cs ss) (ncal_is_bus n) (ncal_is_settle n) = true.
+Proof.
+  intros H. destruct (proj1 (named_iff_parts s (n_ucal n))) as [cs [ss [Hp Hu]]]; [eauto|].
+  exists cs, ss. split; auto.
+  unfold ncal_is_bus, ncal_is_settle, ncal_is_weekday, ncal_is_holiday, ncal_eq_any, ucal_eq_any. rewrite Hu.
+  split; [|split; apply dr_eq_refl].
+  intros d. rewrite ucal_is_bus_spec, ucal_is_settle_spec. cbn [u_cals u_settle]. repeat split; reflexivity.
+Qed.
+
+(* ---------- letter case ---------- *)
+Definition same_letter (a b : Z) : Prop :=
+  a = b \/ (65 <= a <= 90 /\ b = a + 32) \/ (65 <= b <= 90 /\ a = b + 32).
+Lemma lower_cp_upper a : 65 <= a <= 90 -> lower_cp a = lower_cp (a + 32).
+Proof.
+  intros H. unfold lower_cp.
+  destruct (Z.leb_spec 65 a), (Z.leb_spec a 90); try lia. cbn [andb].
+  destruct (Z.leb_spec 65 (a + 32)), (Z.leb_spec (a + 32) 90); try lia; cbn [andb].
+  destruct (Z.eqb_spec (a + 32) 8490); try lia. destruct (Z.eqb_spec (a + 32) 304); try lia. reflexivity.
+Qed.
+Lemma lower_same_letter s1 s2 : Forall2 same_letter s1 s2 -> lower s1 = lower s2.
+Proof.
+  unfold lower. induction 1 as [|a b s1 s2 H _ IH]; [reflexivity|].
+  cbn [flat_map]. rewrite IH. f_equal.
+  destruct H as [->|[[H ->]|[H ->]]]; [reflexivity| |].
+  - apply lower_cp_upper; auto.
+  - symmetry. apply lower_cp_upper; auto.
+Qed.
+Theorem named_case_flip s1 s2 : Forall2 same_letter s1 s2 -> named_try_new s1 = named_try_new s2.
+Proof. intros H. apply named_case_insensitive. apply lower_same_letter; auto. Qed.
+
+(* ---------- the equality impls are agreement on the supported range ---------- *)
+Theorem ucal_eq_any_spec u b2 s2 : ucal_eq_any u b2 s2 = true <->
+  forall d, d1970 <= d <= d2200 -> ucal_is_bus u d = b2 d /\ ucal_is_settle u d = s2 d.
+Proof. apply dr_eq_spec. Qed.
+Theorem ncal_eq_any_spec n b2 s2 : ncal_eq_any n b2 s2 = true <->
+  forall d, d1970 <= d <= d2200 -> ncal_is_bus n d = b2 d /\ ncal_is_settle n d = s2 d.
+Proof. apply dr_eq_spec. Qed.
+Theorem cal_eq_ucal_spec c u : cal_eq_ucal c u = true <->
+  forall d, d1970 <= d <= d2200 -> cal_is_bus c d = ucal_is_bus u d /\ cal_is_settle c d = ucal_is_settle u d.
+Proof. apply dr_eq_spec. Qed.
+Theorem cal_eq_ncal_spec c n : cal_eq_ncal c n = true <->
+  forall d, d1970 <= d <= d2200 -> cal_is_bus c d = ncal_is_bus n d /\ cal_is_settle c d = ncal_is_settle n d.
+Proof.
+  unfold cal_eq_ncal, ucal_eq_any. rewrite dr_eq_spec. unfold ncal_is_bus, ncal_is_settle.
+  split; intros H d Hd; destruct (H d Hd); split; congruence.
+Qed.
